@@ -385,6 +385,58 @@ def r5_parts_are_isolated_views(rep, src):
     C06.r2_position_discipline(Proxy(rep, 'C07.R5'), src)
 
 
+def r7_parts_own_their_cursor(rep, src):
+    """an ar member is a file object with one cursor, and the archive hands the same member object out to every caller
+    (getmember, getmembers, iteration, extractfile); the tar reader of a compressed part reads it sequentially between two content
+    queries and relies on the cursor staying where it left it.  DebFile.__init__ and the part constructors are interpreted
+    (sa.heap) on an archive whose getmember returns one object per name: the object a part keeps for reading is not one of the
+    objects the archive hands out, and it denotes the same member (same name, same bounds)"""
+    from .. import heap as H
+    mod = src.mod(M)
+    f = src.func(M + ':DebFile.__init__')
+    rep.saw_func(f)
+    handed = {}
+
+    def getmember(it, args, kw):
+        nm = args[1]
+        if nm not in handed:
+            handed[nm] = it.h.alloc('ArMember', {'name': nm, '_ArMember__name': nm, '_ArMember__offset': 'OFF:' + str(nm), '_ArMember__end': 'END:' + str(nm),
+                                                 '_ArMember__cur': 'OFF:' + str(nm), '_ArMember__fp': 'FP', '_ArMember__fname': None})
+        return handed[nm]
+    names = ['debian-binary', 'control.tar.gz', 'data.tar.xz']
+    heap = H.Heap(mod, hooks={'ArFile.__init__': lambda it, args, kw: None, '.getnames': lambda it, args, kw: it.h.new_list(list(names)),
+                              '.getmember': getmember, '.read': lambda it, args, kw: '2.0\n', '.close': lambda it, args, kw: None})
+    me = heap.alloc('DebFile', {}, name='@deb')
+    it = H.Interp(heap)
+    it.call(H.Closure(f.node, {}, me, f.cls), [None, 'r', None])
+    parts = heap.objs[me.name].get('_DebFile__parts')
+    if parts is None:
+        raise AnalysisError('C07.R7: DebFile.__init__ does not fill __parts any more')
+    n = 0
+    for k, v in heap.objs[parts.name]['entries']:
+        o = heap.objs[v.name]
+        held = [(a, x) for a, x in o.items() if isinstance(x, H.Ref) and heap.objs[x.name].get('__class__') == 'ArMember']
+        if not held:
+            raise AnalysisError('C07.R7: the %s part keeps no ar member (attributes %s)' % (k, sorted(o)))
+        for a, x in held:
+            n += 1
+            what = 'the %s part reads through a member object of its own' % k
+            shared = [nm for nm, r in handed.items() if r.name == x.name]
+            mo = heap.objs[x.name]
+            orig = [r for nm, r in handed.items() if nm == mo.get('_ArMember__name')]
+            same = orig and all(heap.objs[orig[0].name].get(q) == mo.get(q) for q in ('_ArMember__offset', '_ArMember__end', '_ArMember__fp', '_ArMember__fname'))
+            if shared:
+                rep.fail('C07.R7', f.site, what, 'the object kept in %s.%s is the one getmember(%r) / getmembers() / iteration / extractfile() hand to every caller: a read() or seek() on it '
+                         'between two content queries moves the cursor under the decompressor of the part (EOFError / corrupt-data errors, and the three spellings of a name answer '
+                         'differently from then on)' % (o['__class__'], a, shared[0]), where=f.where)
+            elif not same:
+                rep.fail('C07.R7', f.site, what, 'the object kept in %s.%s is not a view of the member %r (name / bounds / file differ)' % (o['__class__'], a, mo.get('_ArMember__name')), where=f.where)
+            else:
+                rep.ok('C07.R7', f.site, what, '%s.%s is a separate object over the bounds of %r' % (o['__class__'], a, mo.get('_ArMember__name')))
+    if n < 2:
+        raise AnalysisError('C07.R7: fewer than two parts built')
+
+
 def check(src, rep, tier):
     rep.explanation = ('C07: (R1) the member-name normaliser is read as a prefix table and must strip exactly "./" or "/" once (character-set '
                        'stripping is rejected); in has_file/get_file the normaliser call dominates every use of the name and both use the lookup '
@@ -405,3 +457,5 @@ def check(src, rep, tier):
     rep.need('C07.R6', 1)
     rep.guard('C07.R6', r6_text_wrapper, src)
     rep.guard('C07.R5', r5_parts_are_isolated_views, src)
+    rep.need('C07.R7', 2)
+    rep.guard('C07.R7', r7_parts_own_their_cursor, src)
